@@ -1,11 +1,14 @@
 #!/bin/bash
-# runs the thorough tier of the given properties one after the other (for background use with `vp run`)
+# runs the thorough tier of the given properties one after the other (for background use with `vp run`);
+# a copy of each evidence file is kept under evidence/thorough/
 export GOFLAGS=-mod=mod GOPROXY=off GOSUMDB=off GOTOOLCHAIN=local
 cd "$(dirname "$0")"
 go build -o bin/gosym ./cmd/gosym || exit 2
+mkdir -p evidence/thorough
 for id in "$@"; do
   start=$(date +%s)
-  timeout 5400 bin/gosym check -j 8 --repo "${VP_RUN_REPO:-/repo}" --tier thorough $id > thorough_$id.log 2>&1
+  timeout ${THOROUGH_TIMEOUT:-2700} bin/gosym check -j ${THOROUGH_J:-16} --repo "${VP_RUN_REPO:-/repo}" --tier thorough $id > thorough_$id.log 2>&1
   rc=$?
-  echo "$id rc=$rc secs=$(( $(date +%s) - start )) $(tail -n 1 thorough_$id.log | cut -c1-200)"
+  [ $rc -eq 0 ] && cp evidence/$id.json evidence/thorough/$id.json
+  echo "$id rc=$rc secs=$(( $(date +%s) - start )) $(tail -n 1 thorough_$id.log | cut -c1-200) $(grep -c INCONCLUSIVE thorough_$id.log) inconclusive"
 done
